@@ -42,7 +42,7 @@ fn dt_ok(day: i64, tod: i128) -> bool {
 }
 
 fn instant_ok(ns: i128) -> bool {
-    ns.abs() <= MAX_INSTANT_NS
+    (-MAX_INSTANT_NS..=MAX_INSTANT_NS).contains(&ns)
 }
 
 fn date_of(day: i64) -> Option<PlainDate> {
@@ -501,8 +501,72 @@ impl Space for InfallibleConstructors {
     }
 }
 
+/// The public conversions into `EpochNanoseconds` (from i128, u128 and f64) over the values around every
+/// limit of the source types and of the instant range, incl. the u128 values that wrap to a valid i128.
+struct EpochNsConversions;
+fn epoch_i128_values() -> Vec<i128> {
+    let m = MAX_INSTANT_NS;
+    let mut v = vec![0, 1, -1, i128::MAX, i128::MAX - 1, i128::MIN, i128::MIN + 1, i128::MAX - m, i128::MIN + m];
+    for k in [-2i128, -1, 0, 1, 2] {
+        v.extend([m + k, -m + k, (1i128 << 63) + k, -(1i128 << 63) + k, (1i128 << 64) + k, -(1i128 << 64) + k, (1i128 << 73) + k]);
+    }
+    v
+}
+fn epoch_u128_values() -> Vec<u128> {
+    let m = MAX_INSTANT_NS as u128;
+    let mut v = vec![0u128, 1, u128::MAX, u128::MAX - 1];
+    for k in 0..=2u128 {
+        v.extend([m + k, m - k, (1u128 << 63) + k, (1u128 << 64) + k, (1u128 << 64) - 1 - k, (1u128 << 127) + k, (1u128 << 127) - 1 - k]);
+        // two's-complement images of -m-1+k .. and of -1-k
+        v.extend([u128::MAX - m - 1 + k, u128::MAX - m + 1 + k, u128::MAX - k, (1u128 << 127) + m + k, (1u128 << 127) + m - k]);
+    }
+    v
+}
+fn epoch_f64_values() -> Vec<f64> {
+    let m = 8.64e21f64;
+    let up = f64::from_bits(m.to_bits() + 1);
+    let down = f64::from_bits(m.to_bits() - 1);
+    vec![0.0, -0.0, 1.0, -1.0, 0.5, -0.5, 1e-300, m, -m, up, -up, down, -down, 1e22, -1e22, 9.007199254740993e15, 1.7e38, -1.7e38, 1.8e38, -1.8e38, 3.4e38, -3.4e38, f64::MAX, f64::MIN, f64::INFINITY, f64::NEG_INFINITY, f64::NAN, 18446744073709551616.0, -18446744073709551616.0]
+}
+impl Space for EpochNsConversions {
+    fn name(&self) -> String {
+        "c02.epoch_ns_conversions".into()
+    }
+    fn len(&self) -> u64 {
+        (epoch_i128_values().len() + epoch_u128_values().len() + epoch_f64_values().len()) as u64
+    }
+    fn block(&self) -> u64 {
+        8
+    }
+    fn full_oracle(&self) -> bool {
+        true
+    }
+    fn eval(&self, i: u64, out: &mut Out) {
+        use temporal_rs::time::EpochNanoseconds;
+        let (a, b) = (epoch_i128_values(), epoch_u128_values());
+        let i = i as usize;
+        out.nontrivial += 1;
+        if i < a.len() {
+            let v = a[i];
+            let got = call(|| EpochNanoseconds::try_from(v));
+            out.lockstep("EpochNanoseconds::try_from(i128)", &range(instant_ok(v)).map(|_| v), &got, |x, y| y.as_i128() == *x, || vec![("value", v.to_string())]);
+        } else if i < a.len() + b.len() {
+            let v = b[i - a.len()];
+            let model = if v <= MAX_INSTANT_NS as u128 { Ok(v as i128) } else { Err(ErrorKind::Range) };
+            let got = call(|| EpochNanoseconds::try_from(v));
+            out.lockstep("EpochNanoseconds::try_from(u128)", &model, &got, |x, y| y.as_i128() == *x, || vec![("value", v.to_string())]);
+        } else {
+            let v = epoch_f64_values()[i - a.len() - b.len()];
+            // the double is an integer-valued carrier: a fraction is dropped toward zero, as the conversion documents
+            let model = if v.is_finite() && v.trunc().abs() <= 8.64e21 { Ok(v.trunc() as i128) } else { Err(ErrorKind::Range) };
+            let got = call(|| EpochNanoseconds::try_from(v));
+            out.lockstep("EpochNanoseconds::try_from(f64)", &model, &got, |x, y| y.as_i128() == *x, || vec![("value", format!("{v:e}"))]);
+        }
+    }
+}
+
 pub fn boundary_spaces() -> Vec<Box<dyn Space>> {
-    vec![Box::new(DateBoundary), Box::new(DateTimeBoundary), Box::new(InstantBoundary), Box::new(YearMonthBoundary), Box::new(InfallibleConstructors)]
+    vec![Box::new(DateBoundary), Box::new(DateTimeBoundary), Box::new(InstantBoundary), Box::new(EpochNsConversions), Box::new(YearMonthBoundary), Box::new(InfallibleConstructors)]
 }
 
 /// The spaces of the other checks, to be judged with the reduced oracle of the aggregating check.
